@@ -908,6 +908,22 @@ CORPUS += [
 ]
 
 
+CORPUS += [
+    # a prefix strictly INSIDE an unloaded directory entry, registered BEFORE the prefix that covers the entry:
+    # collecting it must load the directory first
+    {"files": {"f0": b"A".hex(), "f1": b"B".hex(), "f2": b"C".hex()},
+     "items": [["dir", ["d"], [["a", "f0"], ["sub/b", "f1"], ["sub/deep/c", "f2"]]]],
+     "map": [[["d", "sub"], {"cache": None, "remote": "r1"}], [[], {"cache": "c0", "remote": "r0"}]],
+     "cls": {"r0": "base", "r1": "base"}, "pre": {}, "topup": True, "fails": []},
+    # one remote designated by two separate prefixes, another remote in between
+    {"files": {"f0": b"A".hex(), "f1": b"B".hex(), "f2": b"C".hex()},
+     "items": [["file", ["a", "f"], "f0"], ["file", ["b", "f"], "f1"], ["dir", ["c"], [["x", "f2"], ["y", "f0"]]]],
+     "map": [[["a"], {"cache": "c0", "remote": "r0"}], [["b"], {"cache": "c0", "remote": "r1"}],
+             [["c"], {"cache": "c0", "remote": "r0"}]],
+     "cls": {"r0": "base", "r1": "local"}, "pre": {}, "topup": True, "fails": [["r0", "f2"]]},
+]
+
+
 def features(C, obs):
     f = []
     f.append(f"prefixes:{len(C.map)}")
@@ -1010,7 +1026,7 @@ def getitem_cases(ctx):
 def run(ctx):
     items = []
     cases = [dict(c) for c in CORPUS]
-    nbase = ctx.n(20, 130)
+    nbase = ctx.n(16, 130)
     limit = 3 if ctx.tier == "quick" else 6
     ksample = 4 if ctx.tier == "quick" else 24
     made = 0
